@@ -1,7 +1,7 @@
 (* The accounting invariant of the cluster protocol (planner as written, under id hygiene) and
    its preservation by every step; consequences for every schedule. *)
 From Coq Require Import List Arith NArith Bool Lia Permutation.
-From GS Require Import LTS Cluster ClusterLTS ClusterPlan ClusterRun.
+From GS Require Import LTS Cluster ClusterLTS ClusterPlan ClusterFix ClusterRun.
 Import ListNotations.
 Open Scope N_scope.
 
@@ -43,6 +43,7 @@ Definition acct_pc (s : state) : Prop :=
 Definition acct (s : state) : Prop :=
   NoDup (lv s) /\ (forall j, In j (lv s) -> j < s_next s) /\ acct_pc s.
 
+(* legacy planner: the invariant is only claimed while every processed map was hygienic *)
 Definition Inv (s : state) : Prop := s_hyg s = true -> acct s.
 
 (* ---------------------------------------------------------------- planner facts used by the steps *)
@@ -63,6 +64,28 @@ Proof.
   intros Hin. apply plan_only in Hin as [(k & old & _ & _ & Hin)|(d & [] & _)].
   unfold dcfg in Hin. cbn [lookup option_map process_existing] in Hin.
   destruct (e_rt old); [destruct Hin as [[= <- <-]|[]]; reflexivity|destruct Hin].
+Qed.
+
+(* what the protocol needs from the REPAIRED planner, for arbitrary ids *)
+Lemma true_plan_good ord cur des :
+  NoDup (keys cur) -> NoDup (keys des) -> Permutation ord (keys cur) ->
+  let pend := build_pending true ord cur des in
+  NoDup (keys pend) /\ Permutation (rts pend) (rts cur) /\
+  (forall q e, In (q, e) pend -> e_act e = AStart -> e_rt e = None) /\
+  (des = [] -> forall q e, In (q, e) pend -> e_act e = AStop).
+Proof.
+  intros Hc Hd Hp pend.
+  assert (Nord : NoDup ord) by (eapply Permutation_NoDup; [apply Permutation_sym; exact Hp|exact Hc]).
+  assert (Sord : forall k, In k ord -> In k (keys cur)) by (intros k; apply Permutation_in; exact Hp).
+  destruct (build_pending_true_spec ord cur des Nord Sord Hd) as (Hnd & _). fold pend in Hnd.
+  split; [exact Hnd|]. split.
+  - unfold pend. rewrite rts_map_snd, true_entries by assumption. rewrite <- rts_map_snd.
+    now apply plan_conserves_runtimes.
+  - split.
+    + intros q e Hin Ha. destruct (true_entry_source ord cur des q e Nord Sord Hd Hin) as (q0 & H0).
+      now apply (plan_start_rt ord cur des q0 e).
+    + intros -> q e Hin. destruct (true_entry_source ord cur [] q e Nord Sord Hd Hin) as (q0 & H0).
+      now apply (plan_shutdown_all_stop ord cur q0 e).
 Qed.
 
 Lemma start_ok_of_plan pend :
